@@ -101,7 +101,7 @@ Target(a, kw) == IF IsSpecial(a) THEN [t |-> SpecTag(a[1]), a |-> <<>>, kw |-> <
 KwSeq(d, x) == SelectSeq(d, LAMBDA p : p[1] \notin Keys(x)) \o x
 
 NoPend == [op |-> "none", k |-> 0, nread |-> 0, late |-> "F", pre |-> <<"F", "idle", 0>>]
-FreshInc(id) == [enq |-> <<>>, raw |-> <<>>, late |-> <<>>, calls |-> <<>>, bempty |-> <<>>, first |-> "none", alive0 |-> "T",
+FreshInc(id) == [enq |-> <<>>, raw |-> <<>>, late |-> <<>>, calls |-> <<>>, bempty |-> <<>>, hung |-> <<>>, first |-> "none", alive0 |-> "T",
                  waited |-> "none", result |-> [k |-> "na", n |-> 0], fault |-> "none", id |-> id,
                  name |-> "nm", userid |-> "u", endk |-> "final", oldos |-> "na", rraised |-> <<>>]
 
@@ -201,7 +201,8 @@ Produces == \/ resQ # <<>> \/ ~Alive
 ApiNextBHang == /\ AllowBlock /\ "nextb" \in Ops /\ CanCall /\ ~Produces
                 /\ cpc \in {"recv", "exiting", "stuck"} /\ (cpc = "recv" => argsQ = <<>>)
                 /\ ppc' = "hung" /\ Log("nextb", "hang")
-                /\ UNCHANGED <<scnv, pend, closed, pdead, late, childv, argsQ, resQ, I, done, nenq, nrst>>
+                /\ I' = [I EXCEPT !.hung = Append(@, "nextb")]
+                /\ UNCHANGED <<scnv, pend, closed, pdead, late, childv, argsQ, resQ, done, nenq, nrst>>
 \* the wrong variant: a closed (not necessarily dead) worker is read without blocking
 ApiNextBClosed == /\ ~BlockAfterClose /\ "nextb" \in Ops /\ CanCall /\ closed
                   /\ IF resQ = <<>>
@@ -474,6 +475,8 @@ Inv_C05_Count  == Terminal => C05_Count(Rec)
 Inv_C05_Closed == C05_Closed(Rec)
 Inv_C05_Call   == C05_Call(Rec)
 Inv_C05_End    == C05_End(Rec)
+Inv_C05_Returns == C05_Returns(Rec)
+Inv_C17_Returns == C17_Returns(Rec)
 Inv_C17_Live          == C17_Live(Rec)
 Inv_C17_Equivalent    == C17_Equivalent(Rec)
 Inv_C17_NewIdentity   == C17_NewIdentity(Rec)
